@@ -47,7 +47,7 @@ ASSUMPTIONS = [
     "hhea/vhea extents: a composite glyph that resolves to no points at all may be counted as a glyph with contours or not (the hhea chapter says 'glyphs with contours'); both readings are accepted",
     "CFF glyph bounds: a moveto not followed by any line/curve may be counted or not, consistently for the whole font; bounds whose extreme lies inside a curve segment get +-1 (floating point root finding), extents derived from them +-2",
     "WOFF2 header totalSfntSize is compared with 12 + 16*numTables + sum of 4-byte-padded origLength (the value the library documents; the recommendation calls it informative)",
-    "TTFont.save exceptions are outside this property (no file is produced; C01 owns them) and are counted as excluded",
+    "a save() that raises because of the input (CFF2 charstring with a width operand; WOFF2 hmtx transform requested for a font without hhea) produces no file and is counted as excluded; any other exception from save() is reported",
 ]
 
 SFNT_FLAVORS = (None, "woff", "woff2")
@@ -171,17 +171,26 @@ def _st_spec():
 
 
 def normalise_spec(spec):
-    """make point-matching arguments valid (they must index existing points); returns the spec"""
-    counts = []
-    for g in spec["glyphs"]:
-        if g["k"] == "s":
-            counts.append(sum(len(c) for c in g["contours"]))
-        elif g["k"] == "e":
-            counts.append(0)
-        else:
+    """Make a raw generated spec valid: point-matching arguments must index existing points. Also applies the
+    exclusion by construction for the known finding 'a component whose own bounding box is a single point is
+    left out of the parent's bounding box': such components are removed (a composite left without components
+    becomes an empty glyph) and counted in spec['excluded_degenerate_components']."""
+    ref = []  # glyphs in the decoded form of vf.sfntref, to reuse its exact composition
+    memo = {}
+    excluded = 0
+    for i, g in enumerate(spec["glyphs"]):
+        if g["k"] == "c":
+            keep = []
             sofar = 0
             for c in g["comps"]:
-                cn = counts[c["g"]]
+                fl = sfntref._flatten(c["g"], ref, memo, set())
+                if fl.pts:
+                    xs = [p[0] for p in fl.pts]
+                    ys = [p[1] for p in fl.pts]
+                    if max(xs) - min(xs) < 2 and max(ys) - min(ys) < 2:
+                        excluded += 1
+                        continue
+                cn = len(fl.pts)
                 if c["mode"] == "pt":
                     if sofar == 0 or cn == 0:
                         c["mode"] = "xy"
@@ -189,7 +198,23 @@ def normalise_spec(spec):
                         c["a"] = abs(c["a"]) % sofar
                         c["b"] = abs(c["b"]) % cn
                 sofar += cn
-            counts.append(sofar)
+                keep.append(c)
+            if keep:
+                g["comps"] = keep
+            else:
+                g = spec["glyphs"][i] = dict(k="e")
+        if g["k"] == "s":
+            pts = [(x, y) for c in g["contours"] for x, y, on in c]
+            ref.append(dict(nc=len(g["contours"]), pts=pts))
+        elif g["k"] == "e":
+            ref.append(None)
+        else:
+            comps = []
+            for c in g["comps"]:
+                fl = c["flags"] | (0x0002 if c["mode"] == "xy" else 0)
+                comps.append(sfntref._component(fl, c["g"], c["a"], c["b"], tuple(c["t"]) if c["t"] is not None else None))
+            ref.append(dict(nc=-1, components=comps))
+    spec["excluded_degenerate_components"] = spec.get("excluded_degenerate_components", 0) + excluded
     return spec
 
 
@@ -540,7 +565,7 @@ def record_file(acc, case, data, labels, container):
     acc.case(fp, nontrivial=nontrivial, labels=labels, sample=None)
 
 
-def check_file(acc, case, data, flavor, derived, cache, extra_labels=(), padding_clause=False):
+def check_file(acc, case, data, flavor, derived, cache, extra_labels=(), padding_clause=None):
     """container + derived (+ padding) clauses on one produced file; returns the parsed container or None"""
     where = "flavor=%s" % flavor
     P = sfntref.validate_container(data)
@@ -563,8 +588,8 @@ def check_file(acc, case, data, flavor, derived, cache, extra_labels=(), padding
             for p in D:
                 acc.fail("derived", _kind(p), "%s font %d: %s" % (where, i, p), case, where=str(flavor))
             labels += ["note:%s" % n for n in notes]
-        if padding_clause and "glyf" in f.tables and "loca" in f.tables and c.kind != "woff2":
-            for p in padding_problems(f.tables, case["padding"] if case.get("padding") is not None else 1):
+        if padding_clause is not None and "glyf" in f.tables and "loca" in f.tables and c.kind != "woff2":
+            for p in padding_problems(f.tables, padding_clause):
                 acc.fail("padding", _kind(p), "%s: %s" % (where, p), case, where=str(flavor))
     if c.kind == "woff2":
         for e in c.fonts[0].w2dir:
@@ -593,6 +618,16 @@ def _kind(p):
     return (head + ":" + " ".join(words))[:70]
 
 
+def _precondition_not_met(e):
+    """save() exceptions that are caused by the input, not by the writer (same classes as C01 excludes)"""
+    msg = str(e)
+    if isinstance(e, AssertionError) and "must not have an initial width" in msg:
+        return "malformed-cff2-charstring-with-width-operand"
+    if type(e).__name__ == "TTLibError" and "missing required table" in msg:
+        return "woff2-transform-needs-a-table-the-font-lacks"
+    return None
+
+
 def run_font_case(case, acc):
     src = case["src"]
     try:
@@ -611,8 +646,10 @@ def run_font_case(case, acc):
     decomp = case.get("decompile", "all")
     derived = bool(case.get("recalc")) and decomp == "all"
     if "gen" in src:
+        if src["gen"].get("excluded_degenerate_components"):
+            acc.exclude("component-with-single-point-bbox (known finding)", src["gen"]["excluded_degenerate_components"])
         # the file FontBuilder wrote from the object model (recalcBBoxes=True): all clauses apply
-        check_file(acc, dict(case, stage="build"), B, None, True, cache, extra_labels=["stage:build"], padding_clause=True)
+        check_file(acc, dict(case, stage="build"), B, None, True, cache, extra_labels=["stage:build"], padding_clause=1)
     outs = {}
     for flavor in SFNT_FLAVORS:
         try:
@@ -632,15 +669,17 @@ def run_font_case(case, acc):
         except CaseTimeout:
             raise
         except Exception as e:
-            if "gen" in src:
-                acc.fail_exc("save-raises", e, dict(case, flavor=flavor))
+            why = _precondition_not_met(e)
+            if why:
+                acc.exclude(why)
             else:
-                acc.exclude("save-raised:%s:%s" % (flavor, type(e).__name__))
+                acc.fail_exc("save-raises", e, dict(case, flavor=flavor))
             continue
         data = buf.getvalue()
         glyf_recompiled = "glyf" in font and font.isLoaded("glyf") and (bool(case.get("recalc")) or decomp == "all")
         xl = ["reorder:%s" % case.get("reorder", True), "recalc:%s" % bool(case.get("recalc")), "lazy:%s" % case.get("lazy"), "decompile:%s" % decomp, "pad:%s" % case.get("padding"), "src:%s" % ("gen" if "gen" in src else src["fid"].split(":")[0])]
-        c = check_file(acc, case, data, flavor, derived, cache, extra_labels=xl, padding_clause=glyf_recompiled)
+        pc = (case["padding"] if case.get("padding") is not None else 1) if glyf_recompiled else None
+        c = check_file(acc, case, data, flavor, derived, cache, extra_labels=xl, padding_clause=pc)
         if c is not None:
             outs[flavor] = c
     if None in outs:
@@ -736,14 +775,15 @@ def run_ttc_case(case, acc):
         except CaseTimeout:
             raise
         except Exception as e:
-            if all("gen" in m["src"] for m in case.get("members", [{"src": {}}])):
-                acc.fail_exc("save-raises", e, dict(case, share=share))
+            why = _precondition_not_met(e)
+            if why:
+                acc.exclude(why)
             else:
-                acc.exclude("save-raised:ttc:%s" % type(e).__name__)
+                acc.fail_exc("save-raises", e, dict(case, share=share))
             return
         data = buf.getvalue()
         xl = ["ttc:share=%s" % share, "ttc:header=%s" % case.get("header", "v1"), "recalc:%s" % bool(case.get("recalc")), "lazy:%s" % case.get("lazy"), "decompile:%s" % decomp]
-        c = check_file(acc, dict(case, share=share), data, None, derived, cache, extra_labels=xl, padding_clause=False)
+        c = check_file(acc, dict(case, share=share), data, None, derived, cache, extra_labels=xl)
         if c is None:
             return
         outs[share] = c
@@ -768,7 +808,11 @@ def run_ttc_case(case, acc):
                     except CaseTimeout:
                         raise
                     except Exception as e:
-                        acc.exclude("save-raised:member:%s" % type(e).__name__)
+                        why = _precondition_not_met(e)
+                        if why:
+                            acc.exclude(why)
+                        else:
+                            acc.fail_exc("save-raises", e, dict(case, member=i))
                         continue
                     d2 = b2.getvalue()
                     c2 = check_file(acc, dict(case, member=i), d2, None, derived, cache, extra_labels=["stage:ttc-member-standalone"])
@@ -831,7 +875,7 @@ def font_cases(fid, seed, tier):
     e = corpus.entry(fid)
     rnd = random.Random(seed)
     glyf = "glyf" in e["tables"]
-    n = 1
+    n = 2 if e["size"] < 60000 else 1
     if tier == "thorough":
         n = 24 if e["size"] < 60000 else 6
     cases = []
